@@ -138,6 +138,9 @@ type wireClient struct {
 	msgs   chan p2p.Msg // everything the node sends after the encryption handshake
 	closed chan struct{}
 	status *statusData
+	onMsg     func(m p2p.Msg) // sub-protocol messages go here instead of the channel
+	td        uint64          // total difficulty (height) announced in the Status; 0 = 1
+	head      types.Hash
 	nodeAlloc uint64 // bytes allocated in the process while only the node was working on the last input
 	r      *rand.Rand
 }
@@ -154,6 +157,10 @@ func (c *wireClient) startReader() {
 			}
 			data, _ := io.ReadAll(m.Payload)
 			m.Payload = bytes.NewReader(data)
+			if c.onMsg != nil && m.Code >= 16 {
+				c.onMsg(m)
+				continue
+			}
 			select {
 			case c.msgs <- m:
 			default:
@@ -371,7 +378,11 @@ func (s *wireServer) step(c *wireClient, st wireStep) (to, reply string) {
 			if _, ok := c.waitMsg(16, 5*time.Second); !ok {
 				return "closed", "none"
 			}
-			p2p.Send(c.rw, 16, &statusData{61, uint32(s.chainID), 1, s.genesis, s.genesis})
+			td, head := uint64(1), s.genesis
+			if c.td > 0 {
+				td, head = c.td, c.head
+			}
+			p2p.Send(c.rw, 16, &statusData{61, uint32(s.chainID), td, head, s.genesis})
 			if c.isClosed(300 * time.Millisecond) {
 				return "closed", "status"
 			}
@@ -486,10 +497,20 @@ func (s *wireServer) control(r *rand.Rand) error {
 	c.sendDisc("disc-reason")
 	// discovery: a new remote is answered, bonded with, and served a findnode
 	if s.udpAddr != nil {
-		if reply, err := s.datagram(r, "findnode-bonded"); err != nil {
-			return err
-		} else if reply != "neighbors" {
-			return fmt.Errorf("the discovery listener does not complete the ping/pong exchange with a new remote and serve its findnode (answer: %s)", reply)
+		// bondings are served one or a few at a time (DESIGN section 12): a new remote may have to wait behind time-outs of
+		// earlier ones; what must not happen is that the listener stays unable to bond - three remotes, one after the other
+		reply := ""
+		for attempt := 0; attempt < 3 && reply != "neighbors"; attempt++ {
+			if attempt > 0 {
+				time.Sleep(2 * time.Second)
+			}
+			var err error
+			if reply, err = s.datagram(r, "findnode-bonded"); err != nil {
+				return err
+			}
+		}
+		if reply != "neighbors" {
+			return fmt.Errorf("the discovery listener does not complete the ping/pong exchange with any of three new remotes and serve its findnode (answer: %s)", reply)
 		}
 	}
 	return nil
